@@ -1,3 +1,5 @@
+//go:build !skip_c05
+
 package main
 
 // C05 — Maintenance renews what is due, once, and keeps serving valid certificates.
@@ -146,7 +148,7 @@ type c05World struct {
 
 var c05DueChecked, c05DueMismatch int
 
-var errC05IssuerDown = errors.New("issuer double: injected failure")
+var c05ErrIssuerDown = errors.New("issuer double: injected failure")
 
 const c05Timeout = 40 * time.Second
 
@@ -176,7 +178,7 @@ func (w *c05World) hook(op *doubles.Op) error {
 	inject := func() error {
 		if op.Kind == "IssueStart" {
 			if n := w.nameInKey(op.Key); n >= 0 && w.failing[n] {
-				return errC05IssuerDown
+				return c05ErrIssuerDown
 			}
 		}
 		return nil
@@ -267,7 +269,7 @@ func c05Validity(now time.Time, due, expired bool) (time.Time, time.Time) {
 	}
 }
 
-func newC05World(h *c05Hist) *c05World {
+func c05NewWorld(h *c05Hist) *c05World {
 	w := &c05World{k: h.K, od: h.OD, be: doubles.NewMemBackend(), ca: doubles.NewCA("C05 harness CA"),
 		actors: map[int64]bool{}, pending: map[int64]*c05Arrival{}, jobOf: map[int64]*c05Job{},
 		jobs: make([][]*c05Job, h.K), failing: make([]bool, h.K), passOf: map[int64]*c05Pass{}, passes: map[int]*c05Pass{},
@@ -938,7 +940,7 @@ type c05Result struct {
 type c05Chooser func(w *c05World, i int) *c05Event
 
 func runC05History(h *c05Hist, choose c05Chooser) (res *c05Result, err error) {
-	w := newC05World(h)
+	w := c05NewWorld(h)
 	finished := false
 	defer func() {
 		if !finished {
